@@ -132,28 +132,32 @@ def check_config(method, n, order, ratio):
 
 
 def check_apply(rule, w, r_e, n, mo, dfl, nz, kappa):
+    """the float application of the rule to the differences, for step sequences of either sign (a negative step takes
+    the differences on the other side; the quotient by h^n is by the SIGNED step)"""
     L = len(w)
     nsteps = L + 2
-    steps = np.array([r_e ** (-i) for i in range(nsteps)])
-    for k in sorted({n, n + mo, max(n - 1, 0)}):
-        def f(t, k=k):
-            return t ** k
-        seq = [rule.diff(f, f(0.0), 0.0, h) for h in steps]
-        try:
-            der, hh, shape = rule.apply(seq, steps, r_e)
-        except Exception as e:
-            return ('apply-raised', 'rule.apply raised %s: %s' % (type(e).__name__, e))
-        der = np.ravel(der)
-        if len(der) != nsteps - (L - 1):
-            return ('apply-length', 'apply returned %d estimates for %d steps and a %d-term rule'
-                    % (len(der), nsteps, L))
-        for i in range(len(der)):
-            exact = sum(w[j] * dfl[k] * steps[i + j] ** k for j in range(L)) / steps[i] ** n if nz[k] else 0.0
-            mag = sum(abs(w[j] * dfl[k]) * steps[i + j] ** k for j in range(L)) / steps[i] ** n
-            allow = 1e3 * EPS * kappa * max(mag, abs(exact)) + 1e-300
-            if not abs(der[i] - exact) <= allow:
-                return ('apply-mismatch', 'apply on t^%d gives estimate[%d]=%r, weights applied to steps '
-                        'h_i..h_i+%d give %r' % (k, i, der[i], L - 1, exact))
+    for sgn in (1.0, -1.0):
+        steps = np.array([sgn * r_e ** (-i) for i in range(nsteps)])
+        tag = '' if sgn > 0 else ':negative-steps'
+        for k in sorted({n, n + mo, max(n - 1, 0)}):
+            def f(t, k=k):
+                return t ** k
+            seq = [rule.diff(f, f(0.0), 0.0, h) for h in steps]
+            try:
+                der, hh, shape = rule.apply(seq, steps, r_e)
+            except Exception as e:
+                return ('apply-raised' + tag, 'rule.apply raised %s: %s' % (type(e).__name__, e))
+            der = np.ravel(der)
+            if len(der) != nsteps - (L - 1):
+                return ('apply-length' + tag, 'apply returned %d estimates for %d steps and a %d-term rule'
+                        % (len(der), nsteps, L))
+            for i in range(len(der)):
+                exact = sum(w[j] * dfl[k] * steps[i + j] ** k for j in range(L)) / steps[i] ** n if nz[k] else 0.0
+                mag = sum(abs(w[j] * dfl[k] * steps[i + j] ** k) for j in range(L)) / abs(steps[i]) ** n
+                allow = 1e3 * EPS * kappa * max(mag, abs(exact)) + 1e-300
+                if not abs(der[i] - exact) <= allow:
+                    return ('apply-mismatch' + tag, 'apply on t^%d with first step %g gives estimate[%d]=%r, weights '
+                            'applied to steps h_i..h_i+%d give %r' % (k, steps[0], i, der[i], L - 1, exact))
     return None
 
 
